@@ -312,7 +312,7 @@ def run(ctx):
                 continue
             if name == "reference.qubit" and (len(spec["wires"]) > 4 or len(spec["ops"]) > 8 or c27.heavy_for_reference(spec)):
                 continue
-            if name.startswith("default.tensor") and len(spec["dev_wires"]) > 6:
+            if name.startswith("default.tensor") and (len(spec["dev_wires"]) > 6 or c27.heavy_for_tensor(spec)):
                 continue
             if name.startswith("default.tensor") and shots:
                 continue
@@ -383,17 +383,19 @@ def run(ctx):
                               mech=retag(qp, C26, gen, spec, name, f"raw-execute:{name}:{type(e).__name__}", ms))
                 continue
             # ---- (b) equivalence
+            if shots:
+                ctx.ev("pre.equivalent")
+                per = [res] if not isinstance(shots, list) else (list(res) if isinstance(res, (tuple, list)) else None)
+                nsh = len(shots) if isinstance(shots, list) else 1
+                ok = per is not None and len(per) == nsh and all(len(ms) == 1 or (isinstance(r_, (tuple, list)) and len(r_) == len(ms)) for r_ in per)
+                if not ok:
+                    ctx.violation("pre.equivalent", f"{name}: finite-shot result does not have the structure (shot entries={nsh}) x (measurements={len(ms)})", case=info,
+                                  mech=f"structure:shots:{name}")
+                continue
             rr = (res,) if len(ms) == 1 else res
             if not isinstance(rr, (tuple, list)) or len(rr) != len(ms):
                 ctx.ev("pre.equivalent")
                 ctx.violation("pre.equivalent", f"{name}: result is not a tuple of {len(ms)} measurement results", case=info, mech=f"structure:{name}")
-                continue
-            if shots:
-                ctx.ev("pre.equivalent")
-                nsh = len(shots) if isinstance(shots, list) else None
-                ok = (nsh is None) or (isinstance(res, (tuple, list)) and len(res) == nsh) or len(ms) == 1
-                if not ok:
-                    ctx.violation("pre.equivalent", f"{name}: shot-vector result has wrong outer structure", case=info, mech=f"structure:shots:{name}")
                 continue
             if name == "null.qubit" or psi is None:
                 ctx.count("equivalence_skipped_no_reference" if name != "null.qubit" else "null_structure_only")
